@@ -20,7 +20,10 @@ oracle     : 5-point central differences of `forward` with power-of-two steps
              logarithms), input class L (large arrays with ties) and input class F (the far ends
              of the domain: internal arguments and parameters from 1e-300 to 1e300 around every
              overflow / underflow threshold, wherever the exact forward value and the exact
-             derivative are normal numbers; forward finite there, jacobian finite) - oracle only
+             derivative are normal numbers; forward finite there, jacobian finite) and input class B
+             (values REQUESTED beyond their bounds - one ulp outside, zero, the opposite sign, far outside,
+             +-inf, NaN - through every route of setting; the clauses judged on the object as it is after
+             the request, whether the library clipped, rejected or stored it) - oracle only
 """
 import math
 import os
@@ -1568,6 +1571,346 @@ def far_checks(ctx):
     ctx.notes["classF_points"] = npts
 
 
+# ----------------------------------------------------------------------------
+# input class B (oracle only): values REQUESTED BEYOND THEIR BOUNDS
+#
+# The bounds of the parameters and constants (scale >= 1e-5, xmax >= 1e-10, nu >= mininu, lam in [minilam, 3],
+# loga <= 0 ...) are what keeps every branch of forward increasing; the library is meant to clip a requested
+# value to them (or to reject it: NaN).  The other classes only ever REQUEST values inside the bounds.  B asks
+# for values beyond them - one ulp outside, just outside, at zero, with the opposite sign, the negative of
+# legal values, far outside (1e6, 1e300), -inf / +inf towards a finite bound, NaN - for every parameter and
+# constant of every class, at both ends, through EVERY route by which a value can be set: t.name = v,
+# t[name] = v, t.params[name] = v, t.params.name = v, t.params.values = [...] (one element beyond, and all of
+# them at once), get_transform(name, ..., name=v), on objects that were used before, with legal changes and
+# reset() in between.  Whatever values the object holds after a request - clipped, kept (the request raised),
+# or stored as asked - are values of a transform the user now works with, i.e. a state the property
+# quantifies over: the clauses are judged on the object AS IT IS, not on a freshly built twin:
+#   * at every point around which forward has finite values on the whole 5-point stencil (the stencil's step
+#     from the local scale of the values the object holds; the sign-carrying values scale / xmax enter forward
+#     only through scale*x, (x - nu)*scale, x/xmax, so the smooth stretch for a negative one is the mirror image
+#     of that for its absolute value): jacobian(x) is a number > 0;
+#   * jacobian(x) = the 5-point central difference of forward within 1e-4 (+ the stencil's rounding bound, as
+#     everywhere in this check; only where the differences with steps h and h/2 agree within 2e-5);
+#   * forward non-decreasing within rounding over ALL ordered pairs of these points.
+# Where the object ends in a state that a fresh object reproduces (the case on the unchanged tree: every route
+# clips or rejects), the full judgement of class W (seams, reference jacobian of a fresh object) is applied
+# too, once per (route, state).  The report names the request that led to the state.  That a route clips is
+# NOT asserted (an unclipped lam = 3.5 keeps the property): the outcome of every request is counted in the
+# notes (`classB_outcomes`).
+
+BEYOND_ROUTES = WALK_STYLES + ("values-all", "get_transform")
+
+
+def beyond_requests(name, opts):
+    """[(value name, requested value, description)] - requests beyond each finite bound of each value"""
+    b = tc.bounds(name, opts)
+    lad = walk_ladders(name, opts)
+    out = []
+    for n in sorted(b):
+        lo, hi = b[n][2], b[n][3]
+        legal = [v for v in lad.get(n, []) if v != 0]
+        if math.isfinite(lo):
+            d = abs(lo) if lo != 0 else 1.0
+            c = [(math.nextafter(lo, -math.inf), "one ulp below the lower bound"),
+                 (lo - 1e-3 * d, "just below the lower bound"),
+                 (lo - d, "below the lower bound by its own size"),
+                 (lo - 3 * d, "below the lower bound by three times its size"),
+                 (-1.0 - abs(lo), "below the lower bound by more than 1"),
+                 (-2.0 - 2 * abs(lo), "below the lower bound by more than 2"),
+                 (-1e6 * max(1.0, d), "far below the lower bound"),
+                 (-1e300, "far below the lower bound"),
+                 (-math.inf, "-inf")]
+            c += [(-abs(v), "the negative of a legal value") for v in legal]
+            out += [(n, float(v), f"{what}; bounds [{lo!r}, {hi!r}]") for v, what in c if v < lo]
+        if math.isfinite(hi):
+            d = abs(hi) if hi != 0 else 1.0
+            c = [(math.nextafter(hi, math.inf), "one ulp above the upper bound"),
+                 (hi + 1e-3 * d, "just above the upper bound"),
+                 (hi + d, "above the upper bound by its own size"),
+                 (hi + 3 * d, "above the upper bound by three times its size"),
+                 (1e6 * max(1.0, d), "far above the upper bound"),
+                 (1e300, "far above the upper bound"),
+                 (math.inf, "+inf")]
+            c += [(abs(v), "a legal value of the other sign") for v in legal if hi <= 0]
+            out += [(n, float(v), f"{what}; bounds [{lo!r}, {hi!r}]") for v, what in c if v > hi]
+        if math.isfinite(lo) or math.isfinite(hi):
+            out.append((n, math.nan, f"NaN; bounds [{lo!r}, {hi!r}]"))
+    seen, uniq = set(), []
+    for n, v, what in out:
+        key = (n, repr(v))
+        if key not in seen:
+            seen.add(key)
+            uniq.append((n, v, what))
+    return uniq
+
+
+def mirrored(name, eff, x):
+    """(values, point) giving forward the same internal argument, with scale / xmax made positive"""
+    v = dict(eff)
+    if name == "YeoJohnson" and v["scale"] < 0:
+        v["scale"], x = -v["scale"], -x
+    elif name == "Sinh" and v["scale"] < 0:
+        v["scale"], x = -v["scale"], 2 * v["nu"] - x
+    elif name in ("LogSinh", "Manly") and v["xmax"] < 0:
+        v["xmax"], x = -v["xmax"], -x
+    return v, x
+
+
+def as_is_scale(name, opts, eff, x):
+    """local_scale for whatever finite values the object holds; 0.0 where it cannot be formed"""
+    try:
+        v, xm = mirrored(name, eff, x)
+        L = local_scale(name, opts, v, xm)
+        return L if math.isfinite(L) and L > 0 else 0.0
+    except (ValueError, OverflowError, ZeroDivisionError, KeyError):
+        return 0.0
+
+
+def judge_as_is(ctx, name, opts, t, rep0, request, rng, canonical):
+    """the clauses of the property on the object `t` as it is (header of class B).  None: nothing could be
+    judged, else True / False (reported)"""
+    eff = tc.stored_values(t)
+    if not all(math.isfinite(v) for v in eff.values()):
+        return None                     # a value that is not a number: "to be set" (constants) - no domain
+    b = tc.bounds(name, opts)
+    legal = {n: min(max(v, b[n][2]), b[n][3]) for n, v in eff.items()}
+    try:
+        xs = seam_points(name, opts, legal) + tc.points(name, opts, legal, rng, 5)
+    except (ValueError, OverflowError, ZeroDivisionError):
+        return None
+    if not canonical:
+        # the stretch of a negative scale / xmax is the mirror image
+        xs = xs + [-x for x in xs] + ([2 * eff["nu"] - x for x in xs] if name == "Sinh" else [])
+        # the same internal arguments x + nu resp. (x - lower) / delta for the values held
+        if name in ("Log", "BoxCox2", "BoxCox1lam", "BoxCox1nu", "Reciprocal"):
+            xs = xs + [x + (legal["nu"] - eff["nu"]) for x in xs]
+        elif name == "Logit":
+            try:
+                r = math.exp(eff["logdelta"] - legal["logdelta"])
+                xs = xs + [eff["lower"] + (x - eff["lower"]) * r for x in xs]
+            except OverflowError:
+                pass
+    Ls = [as_is_scale(name, opts, eff, x) for x in xs]
+    pts = {}
+    for x, L in zip(xs, Ls):
+        if not (L > 0 and math.isfinite(x)) or x in pts:
+            continue
+        h = 2.0 ** math.floor(math.log2(L / 256))
+        p = [x - 2 * h, x - h, x + h, x + 2 * h, x - h / 2, x + h / 2]
+        if not ((p[2] - x) == h and (x - p[1]) == h and (p[3] - x) == 2 * h and (x - p[0]) == 2 * h and
+                (p[5] - x) == h / 2 and (x - p[4]) == h / 2):
+            continue
+        pts[x] = h
+    if not pts:
+        return None
+    xs = sorted(pts)
+    X = np.array(xs, dtype=np.float64)
+    H = np.array([pts[x] for x in xs])
+    who = f"{name}{opts}"
+    state = f"after the request {request} the object holds {eff}"
+    rep0 = dict(rep0, values=eff, x=xs, request=request)
+
+    def fail(mode, extra, text):
+        ctx.failure(f"C02/{name}/beyond-{mode}", dict(rep0, **extra), f"{who}: {state}; {text}")
+        return False
+
+    Fd = {}
+    for d in (0.0, -2.0, -1.0, 1.0, 2.0, -0.5, 0.5):
+        out, _, err = call_on(t, "fwd", X + d * H)
+        if out is None or len(out) != len(xs):
+            if canonical and d == 0.0:
+                return fail("forward-raises", {"method": "forward", "exception": err},
+                            f"forward(x) raised {err} (or lost elements) for the domain points x = {xs}")
+            return None
+        Fd[d] = out
+    inner = [i for i in range(len(xs)) if all(math.isfinite(Fd[d][i]) for d in Fd)]
+    if name == "YeoJohnson":
+        inner = [i for i in inner if not 0 < eff["nu"] + xs[i] * eff["scale"] < tc.eps()]
+    if not inner:
+        return None
+    J, _, jerr = call_on(t, "jac", X.copy())
+    if J is None or len(J) != len(xs):
+        return fail("jacobian-raises", {"method": "jacobian", "exception": jerr},
+                    f"jacobian(x) raised {jerr} (or lost elements) for x = {xs} although forward has finite values "
+                    f"around x = {[xs[i] for i in inner]}")
+    ctx.count((name, "beyond", "canonical" if canonical else "as stored"), n=len(inner))
+    noisy = noisy_params(name, eff)
+    best = None
+    for i in inner:
+        x, h, j, f = xs[i], pts[xs[i]], J[i], Fd[0.0][i]
+        v, xm = mirrored(name, eff, x)
+        if not (j > 0 and math.isfinite(j)) and (canonical or j < 0 or math.isnan(j) or far_region(name, opts, v, xm)):
+            # (0.0 / inf in a state no fresh object reproduces: reported where the exact derivative is a normal
+            # number - e.g. not for an exponent of -1e6 stored unclipped, whose derivative underflows)
+            return fail("jacobian-not-positive", {"method": "jacobian", "x_at_index": x, "index": i, "output": j,
+                                                  "forward": f},
+                        f"jacobian({x!r}) = {j!r} is not a positive number although forward has finite values "
+                        f"around x (forward({x!r}) = {f!r}, forward({x + h!r}) = {Fd[1.0][i]!r})")
+        if not (j > 0 and math.isfinite(j)):
+            continue
+        a = tc.amp(name, "fwd", opts, v, xm, f)
+        # ---- the stencil
+        if not noisy and math.isfinite(a):
+            fv = [Fd[d][i] for d in (-2.0, -1.0, 1.0, 2.0)]
+            fd = (fv[0] - 8 * fv[1] + 8 * fv[2] - fv[3]) / (12 * h)
+            fd2 = (fv[1] - 8 * Fd[-0.5][i] + 8 * Fd[0.5][i] - fv[2]) / (6 * h)
+            af = max([a] + [tc.amp(name, "fwd", opts, *mirrored(name, eff, x + d * h), Fd[d][i])
+                            for d in (-2.0, -1.0, 1.0, 2.0)])
+            noise = 64 * tc.U * af / h if math.isfinite(af) else math.inf
+            if noise <= 2e-5 * abs(j) and abs(fd - fd2) <= 2e-5 * abs(fd2):
+                ctx.count((name, "beyond", "stencil"))
+                if not abs(fd2 - j) <= REL * abs(j) + noise + abs(fd - fd2):
+                    return fail("jacobian-differs-from-finite-difference",
+                                {"method": "jacobian", "x_at_index": x, "index": i, "output": j, "h": h / 2,
+                                 "finite_difference": fd2, "finite_difference_h": fd},
+                                f"jacobian({x!r}) = {j!r}, 5-point central difference of forward = {fd2!r} "
+                                f"(h={h / 2!r}; {fd!r} with h={h!r})")
+        # ---- forward over all ordered pairs
+        if math.isfinite(a):
+            if best is not None and not best[0] <= f + 16 * tc.U * (best[2] + a):
+                return fail("forward-not-increasing",
+                            {"method": "forward", "x1": best[1], "x2": x, "f1": best[0], "f2": f},
+                            f"forward({best[1]!r}) = {best[0]!r} > forward({x!r}) = {f!r} (both in one call)")
+            if best is None or f > best[0]:
+                best = (f, x, a)
+    return True
+
+
+def beyond_checks(ctx):
+    """input class B"""
+    from hydrodiy.stat import transform as T
+    rng = ctx.rng
+    outcomes = {}
+    nreq = njudged = nfull = 0
+    for name in tc.CLASSES:
+        if name == "Softmax" or not tc.bounds(name, {}):
+            continue
+        variants = tc.ctor_variants(name, rng, c02=True)
+        nvar = ctx.scale(1, len(variants))
+        for ri, route in enumerate(BEYOND_ROUTES):
+            for vi in range(nvar):
+                opts = variants[(ri + vi) % len(variants)]
+                try:
+                    reqs = beyond_requests(name, opts)
+                    lad = walk_ladders(name, opts)
+                    first = {n: v[(ri + vi) % len(v)] for n, v in lad.items()}
+                except (ValueError, OverflowError, ZeroDivisionError, KeyError, IndexError):
+                    ctx.notes.setdefault("beyond_plan_fallback", []).append(name)
+                    continue
+                b = tc.bounds(name, opts)
+                cm.mark({"call": "transform (requests beyond the bounds)", "class": name, "opts": opts,
+                         "route": route, "first": first})
+                t, _ = tc.make(name, opts, first, via_get=(ri + vi) % 2 == 1)
+                call_on(t, "fwd", np.array([0.25, -0.5, 2.0]))
+                call_on(t, "jac", np.array([0.25, -0.5, 2.0]))
+                history = [("construct", first)]
+                full_done = set()
+                pending = []
+                if route == "values-all":
+                    # every value of a vector beyond a bound at once: the k-th request of each name together
+                    by = {}
+                    for n, v, what in reqs:
+                        by.setdefault(n, []).append((v, what))
+                    steps = []
+                    for k in range(max(len(v) for v in by.values())):
+                        ch = {n: by[n][k % len(by[n])][0] for n in by}
+                        steps.append((ch, "; ".join(f"{n}: {by[n][k % len(by[n])][1]}" for n in sorted(by))))
+                else:
+                    steps = [({n: v}, what) for n, v, what in reqs]
+                if not ctx.thorough:
+                    rng.shuffle(steps)          # the order of the requests varies with the seed; all are made
+                alive = True
+                for si, (changes, what) in enumerate(steps):
+                    style = "values" if route == "values-all" else route
+                    shown = {"attr": "t.{n} = {v!r}", "item": "t[{n!r}] = {v!r}",
+                             "vector-item": "t.params / t.constants[{n!r}] = {v!r}",
+                             "vector-attr": "t.params / t.constants.{n} = {v!r}",
+                             "values": "values = [...] with {n} = {v!r}",
+                             "get_transform": "get_transform(..., {n}={v!r})"}[style]
+                    request = ", ".join(shown.format(n=n, v=v) for n, v in sorted(changes.items())) + f" ({what})"
+                    nreq += 1
+                    raised = None
+                    try:
+                        with np.errstate(all="ignore"):
+                            if route == "get_transform":
+                                cur = tc.stored_values(t)
+                                kw = {n: v for n, v in {**cur, **changes}.items()
+                                      if not (math.isnan(v) and n not in changes)}
+                                t = T.get_transform(name, **dict(opts), **kw)
+                            else:
+                                tc.apply_step(t, style, changes)
+                    except Exception as e:      # noqa: BLE001 - a rejected request is a legitimate outcome
+                        raised = f"{type(e).__name__}: {e}"
+                    history.append((request, "raised " + raised if raised else "accepted"))
+                    try:
+                        eff = tc.stored_values(t)
+                    except Exception as e:      # noqa: BLE001
+                        ctx.failure(f"C02/{name}/beyond-object-unusable",
+                                    {"class": name, "opts": opts, "history": history, "exception": repr(e)},
+                                    f"{name}{opts}: after the request {request} the values of the object cannot "
+                                    f"be read ({type(e).__name__}: {e})")
+                        break
+                    stored = all((v == eff[n]) or (math.isnan(v) and math.isnan(eff[n])) for n, v in changes.items())
+                    inb = all(math.isnan(v) or b[n][2] <= v <= b[n][3] for n, v in eff.items())
+                    oc = ("raised" if raised else "stored as requested" if stored else
+                          "clipped into the bounds" if inb else "changed, outside the bounds")
+                    key = f"{route}: {oc}" + ("" if inb else " [the object holds values outside the bounds]")
+                    outcomes[key] = outcomes.get(key, 0) + 1
+                    canonical = False
+                    if all(math.isfinite(v) for v in eff.values()):
+                        try:
+                            canonical = tc.make(name, opts, eff)[1] == eff
+                        except Exception:       # noqa: BLE001
+                            canonical = False
+                    rep0 = {"class": name, "opts": opts, "history": list(history), "route": route,
+                            "outcome_of_the_request": oc,
+                            "input_class": "values requested beyond their bounds (B)"}
+                    # the requests made since the object last held values a fresh object reproduces
+                    pending = ([] if canonical else pending) + [request]
+                    res = judge_as_is(ctx, name, opts, t, rep0, "; then ".join(pending[-4:]), rng, canonical)
+                    if res is False:
+                        alive = False
+                        break
+                    njudged += 1 if res else 0
+                    skey = tuple(sorted(eff.items()))
+                    if canonical and skey not in full_done and len(full_done) < ctx.scale(3, 12):
+                        full_done.add(skey)
+                        nfull += 1
+                        rep1 = dict(rep0, request=request)
+                        if judge_setting(ctx, "beyond", name, opts, t, rep1, rng, 3,
+                                         PATTERNS[(si + ri) % len(PATTERNS)], si % 2 == 0) is False:
+                            alive = False
+                            break
+                    # a value that is not a number (NaN accepted by the constants: "to be set"; an infinity stored)
+                    # leaves no domain to judge: it is set to a legal value again before the next request
+                    for n, v in eff.items():
+                        if not math.isfinite(v):
+                            try:
+                                (t.params if b[n][0] == "params" else t.constants)[n] = first[n]
+                                history.append((f"{n} set to {first[n]!r} again (it was {v!r})", None))
+                            except Exception:   # noqa: BLE001
+                                pass
+                    # a legal change / a reset through the API in between: in -> out -> in
+                    if si % 4 == 3 and route != "get_transform":
+                        n = sorted(lad)[(si // 4) % len(lad)]
+                        ch = {n: rng.choice(lad[n])}
+                        try:
+                            if si % 8 == 7:
+                                t.reset()
+                                history.append(("reset()", None))
+                            else:
+                                tc.apply_step(t, style, {**tc.stored_values(t), **ch} if style == "values" else ch)
+                                history.append((f"legal change through the same route: {ch}", None))
+                        except Exception as e:  # noqa: BLE001
+                            history.append((f"legal change {ch} raised {type(e).__name__}", None))
+                if not alive:
+                    continue
+    ctx.notes["classB_requests"] = nreq
+    ctx.notes["classB_states_judged"] = njudged
+    ctx.notes["classB_full_judgements"] = nfull
+    ctx.notes["classB_outcomes"] = dict(sorted(outcomes.items()))
+
+
 def run(ctx):
     ctx.rule = ("12 scalar classes x constructor-option variants (log base > 1) x parameter vectors as in "
                 "C01 x interior domain points; jacobian through the public API; Softmax: 2-D rows; "
@@ -1591,7 +1934,13 @@ def run(ctx):
                 "1e102, 1.3e154), parameters and constants at the far ends of their ranges (xmax 1e-10 .. 1e250, scale "
                 "to 1e100, nu to 1e100, tiny mininu, base next to 1 and 1e300), wherever the exact forward value and "
                 "the exact derivative are normal binary64 numbers: forward finite, jacobian finite and > 0, stencil, "
-                "forward over all pairs, equality of forward only within rounding")
+                "forward over all pairs, equality of forward only within rounding; "
+                "B = every parameter / constant REQUESTED beyond either finite bound (one ulp outside, just outside, "
+                "zero, the opposite sign, the negative of legal values, 1e6, 1e300, -inf / +inf, NaN) through every route "
+                "(t.name = v, t[name] = v, t.params[name] = v, t.params.name = v, values = [...] with one / with all "
+                "elements beyond, get_transform(..., name=v)) on used objects with legal changes and reset() in between: "
+                "jacobian > 0, jacobian = stencil of forward, forward over all pairs, judged on the object as it is "
+                "after the request (clipped, rejected or stored)")
     ctx.trusted = cm.STD_TRUST + [
         "engine E3: the real-number model evaluated by `interval` inside Coq at the implementation's "
         "inputs, compared with the implementation's jacobian under an a priori forward-error bound",
@@ -1612,6 +1961,10 @@ def run(ctx):
         "the unchanged library does not hold there: Sinh beyond |(x - nu)*scale| = 1e150 (jacobian is 0.0 from "
         "1.34e154 on: u*u overflows) and Yeo-Johnson where (1 + |w|)**(exponent - 1) alone underflows although its "
         "product with scale is a normal number (scale ~ 1e100)",
+        "values requested beyond their bounds (input class B): tested, ~1900 requests (thorough: ~6900); that a "
+        "route clips is not asserted (only the property's clauses on the resulting object); observed on the "
+        "unchanged tree: every route clips or raises, except NaN for a constant (xmax, nu of BoxCox1lam, lam of "
+        "BoxCox1nu), which is stored by design ('to be set': forward then raises) - notes['classB_outcomes']",
         "R leaves out float32/integer inputs (the 1e-4 clause is stated for binary64 points), 0-d arrays, and "
         "0-d inputs of YeoJohnson (TypeError in dutils.cast under this numpy on the unchanged tree)",
     ]
@@ -1804,12 +2157,15 @@ def run(ctx):
     large_array_checks(ctx)
     far_checks(ctx)
     t_wxl = time.time() - t_wxl
+    t_b = time.time()
+    beyond_checks(ctx)
+    t_b = time.time() - t_b
 
     t1 = time.time()
     bad, nok, nshards, failed = tc.run_e3(PID, goals, shard=ctx.scale(40, 60))
     ctx.notes["timing_s"] = {"prove": round(t_prove, 1),
-                             "generate+oracle": round(t1 - t0 - t_prove - t_rs - t_wxl, 1),
-                             "classes R+S": round(t_rs, 1), "classes W+X+L+F": round(t_wxl, 1),
+                             "generate+oracle": round(t1 - t0 - t_prove - t_rs - t_wxl - t_b, 1),
+                             "classes R+S": round(t_rs, 1), "classes W+X+L+F": round(t_wxl, 1), "class B": round(t_b, 1),
                              "e3": round(time.time() - t1, 1)}
     ctx.notes["correspondence_goals"] = len(goals)
     ctx.notes["correspondence_mismatches"] = len(bad)
